@@ -158,6 +158,8 @@ func (in *Interp) resetPath() {
 	in.pending = nil
 	in.choiceLog = nil
 	in.mapRot = -1
+	in.oneSided = in.oneSided[:0]
+	in.traced = in.traced[:0]
 	in.bounds = nil
 	// merge decisions must be a deterministic function of the path prefix (DFS re-execution and
 	// work splitting replay choice sequences), so the fallback bookkeeping is per path
@@ -296,10 +298,16 @@ func RunJob(p *Program, job Job, solverKind string, timeoutMs int) (res JobResul
 		in.trace = append(in.trace, choice{v, v + 1})
 	}
 	minDepth := len(job.Prefix)
+	if cfg.JobTimeoutS > 0 {
+		in.deadline = time.Now().Add(time.Duration(cfg.JobTimeoutS) * time.Second)
+	}
 	for {
 		in.resetPath()
 		in.runPath(fn, job.Args)
 		in.Stats.Paths++
+		if in.aborted {
+			break
+		}
 		// backtrack
 		for len(in.trace) > minDepth {
 			last := &in.trace[len(in.trace)-1]
@@ -355,6 +363,9 @@ func (in *Interp) runPath(fn *ssa.Function, args []int) {
 			case unsupported:
 				in.inconclusive(e.what)
 				in.flushAsserts()
+			case jobAbort:
+				in.inconclusive(e.why)
+				in.aborted = true
 			case specAbort:
 				panic("specAbort escaped: " + e.why)
 			default:
